@@ -339,6 +339,59 @@ class Layouts:
             return c.desc()
         return c.desc()
 
+    def _beta(self, A, call, env):
+        """inside a construct factory: the expression arguments with the factory's own parameters replaced by the plain names /
+        attribute paths / constants they are bound to at this call (same module), so that `lambda obj, ctx: int_type(obj)` under
+        int_type = AkaiMidiOutput reads `lambda obj, ctx: AkaiMidiOutput(obj)`"""
+        binds = {}
+        e = env
+        while e:
+            for k, v in e.local.items():
+                if k in binds:
+                    continue
+                if isinstance(v, tuple) and len(v) == 2 and isinstance(v[0], ast.AST) and isinstance(v[1], Env) and v[1].mod is env.mod:
+                    x = v[0]
+                    base = x
+                    while isinstance(base, ast.Attribute):
+                        base = base.value
+                    if isinstance(x, ast.Constant) or (isinstance(base, ast.Name) and v[1].get_local(base.id) is None):
+                        binds[k] = x
+            e = e.parent
+        if not binds or not isinstance(call, ast.Call):
+            return A, call
+        used = {n.id for a in A[1:] for n in ast.walk(a) if isinstance(n, ast.Name)} | {n.id for k in call.keywords for n in ast.walk(k.value) if isinstance(n, ast.Name)}
+        if not (used & set(binds)):
+            return A, call
+        from .loader import clone as _cl
+
+        class S(ast.NodeTransformer):
+            def visit_Lambda(self, node):
+                shadow = {a.arg for a in node.args.args}
+                saved = {k: binds.pop(k) for k in list(binds) if k in shadow}
+                self.generic_visit(node)
+                binds.update(saved)
+                return node
+
+            def visit_Name(self, node):
+                if isinstance(node.ctx, ast.Load) and node.id in binds:
+                    return ast.copy_location(_cl(binds[node.id]), node)
+                return node
+
+        call2 = _cl(call)
+        new_args = [call2.args[0]] if call2.args else []
+        for i_, a in enumerate(call2.args[1:], start=1):
+            new_args.append(S().visit(a))
+        call2.args = new_args
+        for k in call2.keywords:
+            if k.arg not in ("subcon",):
+                k.value = S().visit(k.value)
+        ast.fix_missing_locations(call2)
+        # the sub-construct argument keeps its original node (it is described structurally, by identity)
+        if call.args:
+            call2.args[0] = call.args[0]
+        A2 = list(call2.args) if len(call2.args) == len(A) else [A[0]] + [S().visit(_cl(a)) for a in A[1:]]
+        return A2, call2
+
     # ------------------------------------------------------------ constants
     def const(self, node, env):
         """constant or Sym for context-dependent expressions"""
@@ -540,8 +593,9 @@ class Layouts:
             return Zero("Pointer", (A[0], ev(1)), call, env)
         if n in ("Rebuild", "Default", "ExprAdapter", "ExprSymmetricAdapter", "ExprValidator", "Lazy", "NullStripped",
                  "Enum", "EnumConstruct", "Mapping", "Optional", "Slicing", "Indexing", "Hex", "Peek", "Compiled"):
-            w = Wrap(n, ev(0), A[1:], call)
-            w.subcon_nodes = {id(A[0])}
+            A2, call2 = self._beta(A, call, env)
+            w = Wrap(n, ev(0), A2[1:], call2)
+            w.subcon_nodes = {id(A2[0])}
             return w
         if n == "Filter":
             w = Wrap(n, ev(1), A[:1], call)
